@@ -38,6 +38,28 @@ SEEDS = {
  "S-C18-3": ("C18", "same change as S-C12-1 / S-C15-2 (replace_op files the node under the new class name), found independently for C18",
              "replace_op with a gate of another class, then a count / depth metric: CNOT replaced by CZ still counted, an "
              "Identity replaced by a Hadamard removed by the metric's remove_identity"),
+ "S-C03-4": ("C03", "rref returns early when the rows merely look echelon: leftmost sites non-decreasing and NEIGHBOURING rows on one site "
+             "starting with different Paulis", ">= 3 generators starting on the same site with alternating Paulis (GHZ as ZZI, XXX, "
+             "ZIZ): height over-counted, gauge dependent, one emitter too many; graph-form inputs never"),
+ "S-C04-4": ("C04", "the sign repair of _add_photon_absorption is factored into a helper and called without the emitter index (always "
+             "emitter 0)", ">= 2 emitters, an absorption with phase -1 whose chosen emitter is not emitter 0 (1 of 41 four-vertex "
+             "graphs, 7 % at five): the final inverse circuit puts an X on a photon BEFORE its emission CNOT; the state stays right"),
+ "S-C05-4": ("C05", "StabilizerTableau.__init__ keeps the caller's phase array (np.asarray instead of a copy)", "to_stabilizer() "
+             "of a CliffordTableau then shares its signs; canonical_form's first row swap permutes them in the SOURCE: the same "
+             "long-lived tableau compared again (fidelity(t, t) = 0 for H(1), CNOT(1,0), Z(0))"),
+ "S-C06-4": ("C06", "StabilizerCompiler._apply_additional_noise skips NoNoise entries and zips the remaining noises with the "
+             "unfiltered register list", "a controlled gate whose noise pair is [NoNoise, X] (or control noise after / target noise "
+             "before the gate): the target's noise lands on the control, stabilizer backend only"),
+ "S-C07-4": ("C07", "CliffordTableau(ndarray, phase) keeps the caller's arrays (np.asarray instead of astype)", "two tableaux built "
+             "from the same int arrays, or a clone CliffordTableau(t.table, t.phase), then a gate on one of them: the gate "
+             "functions write into tableau.table in place, the sibling changes"),
+ "S-C08-4": ("C08", "get_stabilizer_tableau_from_graph orders the qubits by SORTED node label", "a graph whose node insertion order "
+             "is not its label order: this route disagrees with graph_to_stabilizer / graph_to_density"),
+ "S-C09-4": ("C09", "lc_check inverts the gates that brought state 2 to graph form one by one but no longer reverses their order",
+             "state 2 given as a tableau not in graph form whose reduction puts an H and a sign-fixing Z on the same qubit "
+             "(~7 % of random equivalent tableaux): wrong gates (validate=False) or a Warning instead of yes"),
+ "S-C10-4": ("C10", "str_to_op (list form) skips every gate on a qubit that carries an 'I'", "n_lc_graphs >= 3 and an orbit member "
+             "whose conversion has the identity plus a Z correction on one qubit (path5 entry 2): circuit orthogonal to the target"),
  "S-C01-3": ("C01", "DensityMatrixCompiler caches the full-register unitary of a gate under (gate type, total qubits, register types, "
              "register numbers) - the number of photons is not in the key", "ONE compiler object compiling two circuits with the "
              "same number of qubits but another photon / emitter split (1p+2e then 2p+1e): the cached unitary sits at the wrong "
@@ -182,7 +204,10 @@ SEEDS = {
              "differs from its library representative by a phase with negative real part: simplify_local_clifford raises"),
 }
 STRENGTHENED = {
- "S-C06-1": "grid extended by the endpoint p = 1", "S-C01-3": "most compiles go through one long-lived compiler object per backend (engine/circuits.py), used by every compile leg",
+ "S-C06-1": "grid extended by the endpoint p = 1", "S-C04-4": "solver-output circuits of all connected 4-vertex and random 5-6 vertex graphs judged for emission shape in C04 itself",
+ "S-C05-4": "half of the comparisons use the long-lived tableau objects themselves (no copies)",
+ "S-C07-4": "clones made with the array constructor from a source's arrays; the source must stay what it was (SourceUnchanged)",
+ "S-C01-3": "most compiles go through one long-lived compiler object per backend (engine/circuits.py), used by every compile leg",
  "S-C03-3": "the same graph object queried, edited in place, queried again",
  "S-C16-3": "scripted explorers called repeatedly in one process, sizes interleaved, held to distinctness (their docstring)",
  "S-C19-3": "warm-start runs (circuit= argument), selection off and on",
